@@ -40,11 +40,25 @@ EXTENDS CgroupTree, TraceCommon
 \* those two writes are then no longer counted by clause (N); any other write to an unchanged file, (V) and (T) stay demanded.
 TolerateUnion == "VERIF_TOLERATE_C12_UNION" \in DOMAIN IOEnv
 
+\* Recorded finding C12-recover-writes-shifted-pool-top-down: the paths that recover the BE cgroups to the BE pool
+\* (recoverCPUSetIfNeed, recoverCPUSetForBECPUManager; under kubelet's static policy also every cpuset round, which recovers the
+\* upper levels and then writes the containers) write the pool in ONE top-down pass.  Where the pool no longer covers what a BE
+\* cgroup holds (an LSE pod took CPUs meanwhile: a SHIFTED pool) a parent is written below its children.  With this switch on,
+\* clause (V) is not demanded of the states of exactly that write sequence: a rewrite entered through one of these paths, towards
+\* a pool that does not cover the old values, as long as every write so far put a cgroup's target into a cgroup whose parent
+\* already holds its target.  (T), (N), (V) of every other state stay demanded.
+TolerateRecover == "VERIF_TOLERATE_C12_RECOVER" \in DOMAIN IOEnv
+RecoverHows == {"disabled", "cfsquota", "becpumgr", "static"}
+VARIABLE excused    \* the current rewrite is, so far, the single top-down pass of a recover to a shifted pool (FALSE unless TolerateRecover)
+
+\* (V) as Trace.cfg constrains it
+VT == V \/ excused
+
 VARIABLE strict     \* nodes that took, in the current rewrite, a write NOT explained by the recorded union pattern
                     \* (= `written` unless TolerateUnion)
 VARIABLES outer,    \* <<>> | <<[old, target, written]>> : the batch in progress while a second caller's batch is nested in it
           alt       \* targets of the batches that ran nested in the current one
-xvars == <<strict, outer, alt>>
+xvars == <<strict, outer, alt, excused>>
 Nested(e) == Get(e, "nested", FALSE)
 
 DecV(k, x)   == IF k = "cpuset" THEN ToSet(x) ELSE x
@@ -72,6 +86,10 @@ TBegin ==
             /\ kind = "cpuset" /\ Has(Trace[seg], "cpus")
             /\ \A n \in Nodes : t[n] = ToSet(Trace[seg].cpus) \ ToSet(Get(Ev, "lse", <<>>))   \* (minus what an LSE pod holds meanwhile)
   /\ strict' = {}
+  /\ excused' = /\ TolerateRecover
+                /\ kind = "cpuset" /\ Get(Trace[seg], "driver", "") = "suppress"
+                /\ Get(Ev, "how", "cpuset") \in RecoverHows
+                /\ \E n \in Nodes : ~(val[n] \subseteq ToSet(Ev.target[n]))          \* the pool does not cover what is held
   /\ UNCHANGED <<ivars, outer, alt>>
 
 \* a second caller's batch gets in while a batch is in progress
@@ -83,7 +101,7 @@ TBeginNested ==
        /\ target' = t
   /\ old' = val /\ written' = {} /\ strict' = {}
   /\ outer' = <<[old |-> old, target |-> target, written |-> written]>>
-  /\ UNCHANGED <<par, kind, val, phase, ivars, alt>>
+  /\ UNCHANGED <<par, kind, val, phase, ivars, alt, excused>>
 
 TDoneNested ==
   /\ IsEvent("done") /\ Nested(Ev)
@@ -94,7 +112,7 @@ TDoneNested ==
   /\ written' = outer[1].written \cup written /\ strict' = outer[1].written \cup written
   /\ alt' = alt \cup {target}
   /\ outer' = <<>>
-  /\ UNCHANGED <<par, kind, val, phase, ivars>>
+  /\ UNCHANGED <<par, kind, val, phase, ivars, excused>>
 
 TCall ==
   /\ IsEvent("call")
@@ -105,8 +123,10 @@ TCall ==
        /\ \A n \in Nodes \ w : f[n] = val[n]           \* a file not written keeps its value
        /\ IF w = {} THEN Call ELSE \E n \in w : Write(n, f[n])
        /\ strict' = strict \cup {n \in w : ~UnionPattern(n, f[n])}
-       /\ Expect(WellTyped(kind, f) /\ HierValid(par, kind, f),                                  \* (V)
-                 [V_requires_each_child_within_its_parent_but |-> Offenders(f)])
+       /\ LET ex == excused /\ \A n \in w : f[n] = target[n] /\ (IF par[n] = 0 THEN TRUE ELSE val[par[n]] = target[par[n]]) IN
+            /\ excused' = ex
+            /\ Expect(WellTyped(kind, f) /\ (HierValid(par, kind, f) \/ ex),                     \* (V)
+                      [V_requires_each_child_within_its_parent_but |-> Offenders(f)])
   /\ UNCHANGED <<ivars, outer, alt>>
 
 TDone ==
@@ -126,7 +146,7 @@ TDone ==
                /\ \A n \in Nodes : old[n] = target[n] => n \notin strict     \* (N) minus the two writes of the recorded pattern
                /\ phase' = "idle" /\ UNCHANGED <<par, kind, val, old, target, written>>
           ELSE Done                                     \* (T) and (N)
-  /\ alt' = {}
+  /\ alt' = {} /\ excused' = FALSE
   /\ UNCHANGED <<ivars, strict, outer>>
 
 TExpire  == IsEvent("expire")  /\ phase = "idle" /\ UNCHANGED <<vars, xvars>>
@@ -154,7 +174,7 @@ TraceInit ==
          /\ par = e.par /\ kind = e.kind
          /\ val = o /\ old = o /\ target = o /\ written = {} /\ phase = "idle"
     /\ cache = <<>> /\ pc = <<"idle">> /\ rewrites = 0 /\ algo = ""   \* PART 2 variables are not used here
-    /\ strict = {} /\ outer = <<>> /\ alt = {}
+    /\ strict = {} /\ outer = <<>> /\ alt = {} /\ excused = FALSE
 
 TraceNext == \/ TBegin \/ TCall \/ TDone \/ TExpire \/ TRestart \/ TExternal \/ TBeginNested \/ TDoneNested
              \/ (SegDone /\ phase = "idle" /\ UNCHANGED <<vars, xvars>>)
